@@ -79,7 +79,10 @@ let rec run (toks : string list) : string =
   match toks with
   (* a sequence of dials of ONE mail.Client, each against a server of its own: the model runs every step from the
      configuration alone (the dial path writes no field of the Client: T1), the results are joined by " / " *)
-  | "seq" :: rest -> String.concat " / " (List.map run (split_steps rest))
+  | k :: rest when String.length k >= 3 && String.sub k 0 3 = "seq" ->
+    (* seq / seqQ / seqR / seqQR: which setter changes the policy and whether Reset is called between the dials is the
+       harness's business; the model runs every dial from the configuration in force at that dial *)
+    String.concat " / " (List.map run (split_steps rest))
   | ["cfg"; calls] ->
     let l = if calls = "-" then [] else List.map call_of (split_on ',' calls) in
     let cc = M.apply_cfg l in
@@ -94,7 +97,8 @@ let rec run (toks : string list) : string =
   | [kind; pol; ssl; auth; custom; host; nonoop; mute; caps; capstls; hs; script; msgs] ->
     run [kind; pol; ssl; auth; custom; host; nonoop; mute; caps; capstls; hs; script; msgs; "0"; "0"]
   | [kind; pol; ssl; auth; custom; host; nonoop; mute; caps; capstls; hs; script; msgs; fb; refuse] ->
-    let k = (match kind with "dial" -> M.KDial | "das" -> M.KDas | "sess2" -> M.KSess2 | _ -> M.KSess) in
+    (* dialk = dial whose connection the harness leaves open for the next call on the same Client *)
+    let k = (match kind with "dial" | "dialk" -> M.KDial | "das" -> M.KDas | "sess2" -> M.KSess2 | _ -> M.KSess) in
     let p = (match pol with "M" -> M.Mandatory | "O" -> M.Opportunistic | _ -> M.NoTLS) in
     let cu = (match custom with
         | "plain0" -> Some (M.plain_impl false) | "plain1" -> Some (M.plain_impl true)
